@@ -95,6 +95,22 @@ fn core_part(set: &dyn DynSet, seed: u64, iters: u64) -> Result<(String, u64), S
         let mut failing = SimRng::new(vec![0; 64], vec![(0, crate::simrng::RngFault::ErrPartial(5))]);
         a.flag("rng_failure_is_err", sk.sign_rng(&mut failing, &msg, &ctx, MODES[0]).is_err());
     }
+    // bulk signing with one key: rare per-signature events (a candidate exactly on a rejection bound,
+    // a coefficient on a rounding boundary) differ between configurations only once in 10^2..10^4 signatures
+    let bulk = iters * 250;
+    let mut p = Prng::for_run(seed, &format!("digest-bulk-{}", info.name), 0);
+    let (pk, sk) = set.keygen_seed(&p.array32());
+    for i in 0..bulk {
+        let msg = i.to_le_bytes();
+        let mut rnd = [0u8; 32];
+        rnd[..8].copy_from_slice(&(i ^ seed).to_le_bytes());
+        let mode = MODES[(i % 4) as usize];
+        let sig = sk.sign_rng(&mut SimRng::healthy(rnd.to_vec()), &msg, &[], mode).map_err(|e| format!("bulk sign: {e}"))?;
+        a.bytes("bulk", &sig);
+        if i % 16 == 0 {
+            a.flag("bulk_v", pk.verify(&msg, &sig, &[], mode));
+        }
+    }
     Ok(a.hex())
 }
 
